@@ -5,6 +5,8 @@ package cli
 // -> short, longer -> long; a name used twice (anywhere, in either order, also inside
 // one list) panics; an argument name must be an upper-case identifier and unique.
 
+import "flag"
+
 func init() {
 	vRegister("H_decl", H_decl)
 }
@@ -60,6 +62,14 @@ func H_decl() {
 	optLen := vParamInt("optLen")
 	argLen := vParamInt("argLen")
 	app := App("app", "")
+	// the declaration checks do not depend on the error policy of the application
+	stdErr = vDiscard{}
+	switch vParamInt("policy") {
+	case 0:
+		app.ErrorHandling = flag.ContinueOnError
+	case 2:
+		app.ErrorHandling = flag.PanicOnError
+	}
 	type decl struct {
 		isOpt  bool
 		name   string
